@@ -623,3 +623,95 @@ func TestManyChannelsOverTime(t *testing.T) {
 	}
 	vh.Check(t, "TestManyChannelsOverTime", vh.N(4, 16), gen, runManyChannels)
 }
+
+// ---- a channel whose ERROR queue is full (the server sent it more unparsable responses than
+// the queue of 10 holds and nobody fetched the errors): the reader is busy with that channel;
+// closing the channel gets it going again and the other channels receive their packages.
+
+type errBacklogCase struct {
+	Extra int  `json:"unparsable_responses_beyond_the_error_queue"`
+	Procs int  `json:"gomaxprocs"`
+	Main  bool `json:"channel_with_the_errors_is_the_main_channel"`
+}
+
+func runErrBacklog(c errBacklogCase) (f *vh.Failure) {
+	defer func() {
+		if r := recover(); r != nil {
+			vh.CheckHarnessPanic(r)
+			f = vh.Failf("C12/panic", "panic: %v", r)
+		}
+	}()
+	old := runtime.GOMAXPROCS(c.Procs)
+	defer runtime.GOMAXPROCS(old)
+	e := newLifeEnv(100)
+	defer e.stop()
+	var chans []*tds.Channel
+	for i := 0; i < 3; i++ {
+		var ch *tds.Channel
+		var err error
+		if !within(5*time.Second, func() { ch, err = e.conn.NewChannel() }) || err != nil {
+			return vh.Failf("C12/newchannel", "NewChannel %d: %v", i, err)
+		}
+		chans = append(chans, ch)
+	}
+	a, b := chans[1], chans[2]
+	if c.Main {
+		a = chans[0]
+	}
+	where := fmt.Sprintf("%+v: channel %d got %d unparsable responses, nobody fetched its errors", c, a.VerifID(), 10+c.Extra)
+	for v := 0; v < 10+c.Extra; v++ {
+		// a ROW without a format in front of it
+		e.pipe.Feed(rc.Packet{Type: rc.BufResponse, Channel: uint16(a.VerifID()), Status: rc.StatEOM, Body: []byte{rc.TokRow, 1, 2, 3}}.Bytes())
+	}
+	stuck := false
+	for t0 := time.Now(); time.Since(t0) < 2*time.Second; {
+		if a.TryLock() {
+			a.Unlock()
+			time.Sleep(100 * time.Microsecond)
+			continue
+		}
+		time.Sleep(300 * time.Microsecond)
+		if !a.TryLock() {
+			stuck = true
+			break
+		}
+		a.Unlock()
+	}
+	if !stuck {
+		vh.Label("error-backlog:reader-not-observed-stuck")
+	}
+	if !within(5*time.Second, func() { _ = a.Close() }) {
+		return vh.Failf("C12/close-blocked-by-full-error-queue", "%s: Close of that channel did not return within 5 s", where)
+	}
+	e.pipe.Feed(retPacket(b.VerifID(), 77, true))
+	// (what was still on its way to the closed channel is reported as connection errors to
+	// whoever asks next: those are skipped)
+	wctx, cancel := context.WithTimeout(e.bg, 5*time.Second)
+	var p tds.Package
+	var err error
+	for {
+		p, err = b.NextPackage(wctx, true)
+		if err == nil || wctx.Err() != nil || !strings.Contains(err.Error(), "invalid channel") {
+			break
+		}
+	}
+	cancel()
+	if err != nil {
+		return vh.Failf("C12/other-channel-starved-by-full-error-queue", "%s: after it was closed, channel %d did not receive the response sent to it: %v", where, b.VerifID(), err)
+	}
+	if rs, ok := p.(*tds.ReturnStatusPackage); !ok || rs.ReturnValue != 77 {
+		return vh.Failf("C12/other-channel-starved-by-full-error-queue", "%s: channel %d received %v", where, b.VerifID(), p)
+	}
+	vh.Label("error-backlog:channel-closed-with-full-error-queue")
+	if stuck {
+		vh.NonTrivial(fmt.Sprintf("%+v", c))
+	}
+	return nil
+}
+
+func TestErrorBacklogIsolation(t *testing.T) {
+	gen := func(rt *rapid.T) errBacklogCase {
+		return errBacklogCase{Extra: rapid.IntRange(1, 5).Draw(rt, "extra"), Procs: rapid.SampledFrom([]int{1, 2, 4, 16}).Draw(rt, "procs"), Main: rapid.IntRange(0, 3).Draw(rt, "main") == 0}
+	}
+	vh.Check(t, "TestErrorBacklogIsolation", vh.N(30, 800), gen, runErrBacklog)
+}
